@@ -19,6 +19,8 @@ import (
 	"fmt"
 	"io"
 	"os"
+	"runtime"
+	"runtime/debug"
 	"sort"
 	"strings"
 	"syscall"
@@ -919,6 +921,10 @@ func (x *c19ctx) dispatch(c c19case) {
 
 func TestVerifC19(t *testing.T) {
 	log.SetOutput(io.Discard)
+	// the harness is single-threaded and 16 shards run side by side: keep the Go runtime (GC workers)
+	// from oversubscribing the machine
+	runtime.GOMAXPROCS(2)
+	debug.SetGCPercent(400)
 	if len(c19ref80a) != 80 || len(c19ref80b) != 80 {
 		t.Fatalf("harness: reference sequences must be 80 long (%d, %d)", len(c19ref80a), len(c19ref80b))
 	}
